@@ -74,12 +74,14 @@ func (s *rSet) earliest() (time.Duration, int64) {
 	if s.ms() {
 		// a period >= MILLISECOND_QUEUE_LENGTH ms ends on the second wheel, counted from the sampled clock as it stood
 		// when the terms were set: a sampler that the machine kept late shortens it like a second-granularity period
-		if s.req.op.E >= MILLISECOND_QUEUE_LENGTH && stale > 0 {
-			return s.lb.at + s.dur() - time.Duration(stale)*time.Second - rMsGranularity, stale
+		if s.req.op.E >= MILLISECOND_QUEUE_LENGTH {
+			return s.lb.at + s.dur() - time.Duration(stale)*time.Second - time.Duration(s.lb.FracNs) - rMsGranularity, stale
 		}
 		return s.lb.at + s.dur() - rMsGranularity, 0
 	}
-	return s.lb.at + s.dur() - time.Duration(stale)*time.Second, stale
+	// the statement counts in SERVER time: a period set during server second S may end when the server clock shows S + E,
+	// i.e. up to one second (the elapsed part of second S) less than E of wall time after the request
+	return s.lb.at + s.dur() - time.Duration(stale)*time.Second - time.Duration(s.lb.FracNs), stale
 }
 
 type rHold struct {
@@ -456,10 +458,11 @@ func rJudge(c *rCase, run *rRun) *rVerdict {
 		}
 		switch {
 		case !msT:
-			lo = q.send.at + T - time.Duration(stale)*time.Second
+			// server time: queued during server second S, TIMEOUT admissible once the server clock shows S + T
+			lo = q.send.at + T - time.Duration(stale)*time.Second - time.Duration(q.send.FracNs)
 		case q.op.T >= MILLISECOND_QUEUE_LENGTH:
 			// ends on the second wheel, counted from the sampled clock at the time of queueing (see rSet.earliest)
-			lo -= time.Duration(stale) * time.Second
+			lo -= time.Duration(stale)*time.Second + time.Duration(q.send.FracNs)
 		default:
 			stale = 0
 		}
@@ -690,7 +693,7 @@ func rJudge(c *rCase, run *rRun) *rVerdict {
 		}
 		earliestTO := head.send.at + head.timeoutDur() - rMsGranularity
 		if head.op.TF&rTFms == 0 || head.op.T >= MILLISECOND_QUEUE_LENGTH {
-			earliestTO = head.send.at + head.timeoutDur() - time.Duration(head.send.UnixS-head.send.SrvS)*time.Second
+			earliestTO = head.send.at + head.timeoutDur() - time.Duration(head.send.UnixS-head.send.SrvS)*time.Second - time.Duration(head.send.FracNs)
 		}
 		if earliestTO <= wakeBy+50*time.Millisecond || end <= wakeBy+50*time.Millisecond {
 			continue
